@@ -75,6 +75,12 @@ def quick_deviations():
     out.append(mk("lsn", True, sigma=-1.0, opt=dict(cap_Bp_ylow_xpoint=True), tags=["capBp"]))
     # more than one processor (the same artefact serves C13's differential comparison)
     out.append(mk("lsn", False, opt=dict(number_of_processors=2), tags=["np"]))
+    # affine image of the equilibrium: R span 1.1 starting at 0.35, Z stretched 2.5x and shifted
+    # (zmid != 0, max(Z) > max(R)); also through the geqdsk path
+    AFF = [1.1, -0.75, 2.5, 0.3]
+    out.append(mk("usn", True, affine=AFF, tags=["affine"]))
+    out.append(mk("lsn", False, affine=AFF, tags=["affine"]))
+    out.append(mk("cdn", True, affine=AFF, via="gfile", tags=["affine", "gfile"]))
     # profile grid that extends beyond the separatrix; quadratic fpol
     out.append(mk("lsn", True, profile_ext=True, fpol="quad", tags=["profiles"]))
     out.append(mk("ldn", True, profile_ext=True, fpol="quad", tags=["profiles"]))
@@ -129,6 +135,8 @@ def thorough_deviations():
             m(opt=dict(follow_perpendicular_rtol=2e-6, follow_perpendicular_atol=1e-6), tags=["fp"])
             m(opt=dict(follow_perpendicular_rtol=2e-10, follow_perpendicular_atol=1e-10), tags=["fp"])
             m(via="gfile", tags=["gfile"])
+            m(affine=[1.1, -0.75, 2.5, 0.3], tags=["affine"])
+            m(affine=[0.8, 0.4, 1.3, -0.2], via="gfile", tags=["affine", "gfile"])
             if orth:
                 m(opt=dict(curvature_type="curl(b/B) with x-y derivatives"), tags=["curv"])
                 m(opt=dict(refine_methods="line"), tags=["refine"])
